@@ -357,6 +357,11 @@ def run_candidate(c):
                     if len(bad) >= 3:
                         break
             obs = {"programs_compared": n_cmp}
+        elif kind == "tokens_tile":
+            import bounded
+            text = list(c["files"].values())[0]
+            bad = bounded.tile_mismatches(binp, text, d) or []
+            obs = {"mismatches_detail": bad}
         elif kind == "bounded_pair":
             import bounded
             bad, obs = bounded.replay_pair(binp, c["original_text"], c["transformed_text"], c.get("fold_case", False))
